@@ -51,7 +51,11 @@ LOWER_GLUE = ["Module::resolve_special_instrumentation: the per-function driver 
               "'fires once when ...' is an execution-trace property: neither verifier has a WebAssembly semantics; what is proved is WHERE each helper places WHICH code (placement contracts written from the property text)",
               "TRUSTED: Inject::inject_all injects the slice in order (closure capturing &mut self)"]
 
-ENCODE_GLUE = "Module::encode_internal (src/ir/module/mod.rs): the call sites of recalculate_ids / fix_op_id_mapping and the per-section emission loops are not under contract"
+ENCODE_GLUE = "Module::encode_internal (src/ir/module/mod.rs): the call sites of recalculate_ids / fix_op_id_mapping and the per-section emission loops are not under contract, EXCEPT the per-instruction loop of the code section (unit V11, a region of encode_internal): every instruction and every injected instruction goes through fix_op_id_mapping with the three maps before it is emitted"
+V11_EMIT = ["V11_emit.encode_function_body.*", "V11_emit.fn:encode_function_body", "V11_emit.update_ids_and_encode.*", "V11_emit.fn:update_ids_and_encode",
+            "V11_emit.fn:InstrumentationFlag::has_instr", "V11_emit.fn:InstrumentationFlag::check_special_is_resolved", "V11_emit.fn:lowered_upto"]
+V11_TRUST = ["TRUSTED model of wasm-encoder (V11): a function body under construction is the sequence of operators handed to Function::instruction; RoundtripReencoder::instruction converts each operator faithfully (the nested fn `encode` is assumed)",
+             "V11 assumes the contract of fix_op_id_mapping that unit V3 proves (same clause text); wasmparser's derived Clone for Operator yields an equal value"]
 
 PROPS = {
     "C01": {
@@ -122,38 +126,42 @@ PROPS = {
     },
     "C06": {
         "title": "Function references stay bound to the same function across edits",
-        "units": ["V2_reindex", "V3_remap", "V6_api"],
+        "units": ["V2_reindex", "V3_remap", "V6_api", "V11_emit"],
         "obligations": V2_GENERIC + v2_inst("Function", "Functions") + V6_FUNCS + [
             "V3_remap.refers_to_func.*", "V3_remap.fn:refers_to_func", "V3_remap.update_fn_instr.*", "V3_remap.fn:update_fn_instr",
             "V3_remap.fix_op_id_mapping.*", "V3_remap.fn:fix_op_id_mapping", "V3_remap.InitInstr.*", "V3_remap.fn:InitInstr::fix_id_mapping",
             "V3_remap.fn:lemma_families_disjoint"],
-        "glue": [ENCODE_GLUE, "export / start / element-segment remapping lines in encode_internal", "'output validates' (wasmparser validator) is not decided"],
+        "obligations_extra": ["V11_emit.fn:encode_function_body", "V11_emit.update_ids_and_encode.*", "V11_emit.fn:update_ids_and_encode"],
+        "glue": V11_TRUST + [ENCODE_GLUE, "export / start / element-segment remapping lines in encode_internal", "'output validates' (wasmparser validator) is not decided"],
         "design_ref": "DESIGN.md §4 V2 V3, §5 C06",
     },
     "C07": {
         "title": "Global references stay bound to the same global across edits",
-        "units": ["V2_reindex", "V3_remap", "V6b_api2"],
+        "units": ["V2_reindex", "V3_remap", "V6b_api2", "V11_emit"],
         "obligations": V2_GENERIC + v2_inst("Global", "ModuleGlobals") + V6_GLOBALS + [
             "V3_remap.refers_to_global.*", "V3_remap.fn:refers_to_global", "V3_remap.update_global_instr.*", "V3_remap.fn:update_global_instr",
             "V3_remap.fix_op_id_mapping.*", "V3_remap.fn:fix_op_id_mapping", "V3_remap.InitInstr.*", "V3_remap.fn:InitInstr::fix_id_mapping"],
-        "glue": [ENCODE_GLUE, "global export emission; table/element constant expressions", "'output validates' is not decided"],
+        "obligations_extra": ["V11_emit.fn:encode_function_body", "V11_emit.update_ids_and_encode.*", "V11_emit.fn:update_ids_and_encode"],
+        "glue": V11_TRUST + [ENCODE_GLUE, "global export emission; table/element constant expressions", "'output validates' is not decided"],
         "design_ref": "DESIGN.md §4 V2 V3, §5 C07",
     },
     "C08": {
         "title": "Memory references stay bound to the same memory across edits",
-        "units": ["V2_reindex", "V3_remap", "V6b_api2"],
+        "units": ["V2_reindex", "V3_remap", "V6b_api2", "V11_emit"],
         "obligations": V2_GENERIC + v2_inst("Memory", "Memories") + V6_MEMS + [
             "V3_remap.refers_to_memory.*", "V3_remap.fn:refers_to_memory", "V3_remap.update_memory_instr.*", "V3_remap.fn:update_memory_instr",
             "V3_remap.fix_op_id_mapping.*", "V3_remap.fn:fix_op_id_mapping"],
-        "glue": [ENCODE_GLUE, "data-segment memory index and memory export lines in encode_internal", "'output validates' is not decided"],
+        "obligations_extra": ["V11_emit.fn:encode_function_body", "V11_emit.update_ids_and_encode.*", "V11_emit.fn:update_ids_and_encode"],
+        "glue": V11_TRUST + [ENCODE_GLUE, "data-segment memory index and memory export lines in encode_internal", "'output validates' is not decided"],
         "design_ref": "DESIGN.md §4 V2 V3, §5 C08",
     },
     "C09": {
         "title": "Deletion removes exactly the deleted entity",
-        "units": ["V2_reindex", "V3_remap", "V6_api", "V6b_api2"],
+        "units": ["V2_reindex", "V3_remap", "V6_api", "V6b_api2", "V11_emit"],
         "obligations": V2_GENERIC + v2_inst("Function", "Functions") + v2_inst("Global", "ModuleGlobals") + v2_inst("Memory", "Memories") + V6_DELETES + [
             "V3_remap.update_*_instr.*", "V3_remap.fn:update_*_instr", "V3_remap.fn:InitInstr::fix_id_mapping"],
-        "glue": [ENCODE_GLUE, "ModuleExports::delete / ModuleImports::delete flags are honoured by emission loops in encode_internal",
+        "obligations_extra": ["V11_emit.fn:encode_function_body", "V11_emit.update_ids_and_encode.*", "V11_emit.fn:update_ids_and_encode"],
+        "glue": V11_TRUST + [ENCODE_GLUE, "ModuleExports::delete / ModuleImports::delete flags are honoured by emission loops in encode_internal",
                  "'fails loudly': update_* are proved panic-free exactly when every referenced id has an image; the converse (a missing image panics rather than writing an index) is by inspection of the three `None => panic!` arms"],
         "design_ref": "DESIGN.md §4 V2 V3, §5 C09",
     },
@@ -200,8 +208,9 @@ PROPS = {
         "units": ["V6_api", "V2_reindex"],
         "obligations": ["V6_api.set_fn_name.*", "V6_api.fn:Module::set_fn_name", "V6_api.Functions.set_local_fn_name.*", "V6_api.Functions.set_imported_fn_name.*",
                         "V6_api.fn:Functions::set_local_fn_name", "V6_api.fn:Functions::set_imported_fn_name", "V6_api.ModuleImports.set_name.*", "V6_api.fn:ModuleImports::set_name",
+                        "V6_api.ModuleImports.set_fn_name.*", "V6_api.fn:ModuleImports::set_fn_name", "V6_api.fn:Import::is_function", "V6_api.fn:lemma_fn_imports_before_monotone",
                         "V2_reindex.recalculate_ids.live_items_stay_bound", "V2_reindex.reorganise_generic.*", "V2_reindex.fn:reorganise_generic"],
-        "glue": [ENCODE_GLUE, "function names travel inside the Function / Body / Import items that V2 proves are permuted, never rebuilt; emission of the name section is glue",
+        "glue": [ENCODE_GLUE, "TRUSTED axiom (ModuleImports::set_fn_name): the elements a dropped slice::IterMut has not yielded keep their values", "function names travel inside the Function / Body / Import items that V2 proves are permuted, never rebuilt; emission of the name section is glue",
                  "stored local-name and global-name maps (IndirectNameMap / NameMap) are re-emitted verbatim by encode_internal and are NOT re-indexed (seen while reading; not decidable by these checks)"],
         "design_ref": "DESIGN.md §5 C29",
     },
@@ -223,12 +232,13 @@ PROPS = {
     },
     "C15": {
         "title": "Before/after/alternate injection is lowered exactly",
-        "units": ["V4_inject", "V4b_iter_inject"],
-        "obligations": ["V4b_iter_inject.ModuleIterator.*", "V4b_iter_inject.fn:ModuleIterator as *", "V4b_iter_inject.fn:Functions::get_mut"] + ["V4_inject.InstrumentationFlag.*", "V4_inject.fn:InstrumentationFlag::*", "V4_inject.fn:Instruction::add_instr", "V4_inject.LocalFunction.*", "V4_inject.fn:LocalFunction::add_instr",
+        "units": ["V4_inject", "V4b_iter_inject", "V11_emit"],
+        "obligations": V11_EMIT + ["V4b_iter_inject.ModuleIterator.*", "V4b_iter_inject.fn:ModuleIterator as *", "V4b_iter_inject.fn:Functions::get_mut"] + ["V4_inject.InstrumentationFlag.*", "V4_inject.fn:InstrumentationFlag::*", "V4_inject.fn:Instruction::add_instr", "V4_inject.LocalFunction.*", "V4_inject.fn:LocalFunction::add_instr",
                         "V4_inject.fn:Body::clear_instr", "V4_inject.fn:FunctionModifier as *"],
-        "glue": ["the emission order `before; alternate-or-instruction; after` and the final-`end` rule are ~60 lines inside Module::encode_internal: not under contract (a bounded Kani stand-in was infeasible: encode exceeds CBMC's memory)"],
+        "glue": V11_TRUST + ["the rest of Module::encode_internal around the per-instruction loop (which functions are emitted, locals, how instr_len is computed: `instructions.len() - 1` is a precondition of the region) is not under contract",
+                 "rule R16: the loop is cut out of encode_internal by a text anchor and wrapped in a declared header; the locals it uses become parameters of the same types"],
         "design_ref": "DESIGN.md §5 C15",
-        "level_text": "Accumulation half: for every injection API path the operator is appended to exactly the list of the active mode of exactly the addressed instruction; clearing removes exactly one mode's list. The order in which the lists are emitted is glue.",
+        "level_text": "Accumulation half: for every injection API path the operator is appended to exactly the list of the active mode of exactly the addressed instruction; clearing removes exactly one mode's list. Emission half (the real per-instruction loop of encode_internal, extracted as a region): the emitted body is the concatenation, in order, of before-code, then the replacement if there is one (and the instruction is not the function's final end) or else the instruction itself, then after-code (not at the final end), every operator rewritten through the three id maps.",
     },
     "C17": {
         "title": "Function entry/exit probes fire once per call on every normal path",
@@ -256,7 +266,8 @@ PROPS = {
     "C20": {
         "title": "Semantic-after probes fire exactly once after the instruction",
         "units": ["V8_lower"],
-        "obligations": V8_BASE + ["V8_lower.create_bool_flag.*", "V8_lower.fn:create_bool_flag", "V8_lower.fn:add_local", "V8_lower.resolve_bodies.*", "V8_lower.fn:resolve_bodies", "V8_lower.plan_resolution_semantic_after.*", "V8_lower.fn:plan_resolution_semantic_after"],
+        "obligations": V8_BASE + ["V8_lower.create_bool_flag.*", "V8_lower.fn:create_bool_flag", "V8_lower.fn:add_local", "V8_lower.resolve_bodies.*", "V8_lower.fn:resolve_bodies", "V8_lower.plan_resolution_semantic_after.*", "V8_lower.fn:plan_resolution_semantic_after",
+                                   "V8_lower.kf.resolve_bodies.*", "V8_lower.lemma.emitted_chain_is_well_nested_up_to_two_flagged_bodies", "V8_lower.fn:lemma_chain_agrees_up_to_two"],
         "glue": LOWER_GLUE + ["ASSUMED: the contracts of save_{not_,}flagged_body_to_resolve (HashMap entry chains) and of the br_table target loop (a for_each closure, named brtable_save_targets by rule R11): they add the body under (block, mode), flagged with the given local or unflagged, and touch nothing else",
                               "TRUSTED model of wasmparser::BrTable: targets() yields br_targets(t), default() is br_default(t)"],
         "design_ref": "DESIGN.md §5 C17-C20",
@@ -271,8 +282,8 @@ PROPS = {
     },
     "C22": {
         "title": "Special-mode injections are never silently lost",
-        "units": ["V4_inject", "V4b_iter_inject"],
-        "obligations": ["V4b_iter_inject.ModuleIterator.*", "V4b_iter_inject.fn:ModuleIterator as *", "V4b_iter_inject.ComponentIterator.*", "V4b_iter_inject.fn:ComponentIterator as *", "V4b_iter_inject.fn:Functions::get_mut"] + ["V4_inject.InstrumentationFlag.add_instr.*", "V4_inject.fn:InstrumentationFlag::add_instr", "V4_inject.is_block_style_op.*", "V4_inject.is_branching_op.*",
+        "units": ["V4_inject", "V4b_iter_inject", "V11_emit"],
+        "obligations": V11_EMIT + ["V4b_iter_inject.ModuleIterator.*", "V4b_iter_inject.fn:ModuleIterator as *", "V4b_iter_inject.ComponentIterator.*", "V4b_iter_inject.fn:ComponentIterator as *", "V4b_iter_inject.fn:Functions::get_mut"] + ["V4_inject.InstrumentationFlag.add_instr.*", "V4_inject.fn:InstrumentationFlag::add_instr", "V4_inject.is_block_style_op.*", "V4_inject.is_branching_op.*",
                         "V4_inject.fn:InstrumentationFlag::is_block_style_op", "V4_inject.fn:InstrumentationFlag::is_branching_op",
                         "V4_inject.FuncInstrFlag.*", "V4_inject.fn:FuncInstrFlag::add_instr", "V4_inject.fn:Instruction::add_instr",
                         "V4_inject.LocalFunction.*", "V4_inject.fn:LocalFunction::add_instr",
@@ -332,3 +343,7 @@ NOT_APPLICABLE = {
     "C23": "the side-effect report is assembled inside encode_internal and in closure-based add_injections that push into HashMap<InjectType, Vec<_>> through the entry API: outside Verus' supported subset, and a non-empty HashMap is out of Kani's reach (>100 s per operation, memory blow-up)",
     "C27": "the nesting-stack logic and section replay are inline in Component::parse_comp / encode_comp (wasmparser payload streams, recursion over nested components); no separately contractable function decides anything the statement says",
 }
+
+for _p in PROPS.values():
+    if "obligations_extra" in _p:
+        _p["obligations"] = list(_p["obligations"]) + _p.pop("obligations_extra")
